@@ -321,6 +321,13 @@ class PkgConfigInfo:
         return pkg_config, uniques(system), deps
 
 
+class _PcFileWriter(Writer):
+    def write_literal(self, string):
+        # A `#` starts a comment anywhere in a .pc file (even inside quotes)
+        # unless it's escaped.
+        super().write_literal(string.replace('#', '\\#'))
+
+
 class PkgConfigWriter:
     directory = path.Path('pkgconfig')
 
@@ -400,7 +407,7 @@ class PkgConfigWriter:
         )
 
         # CMake expects POSIX-like paths in pkg-config files.
-        out = Writer(out, localize_paths=False)
+        out = _PcFileWriter(out, localize_paths=False)
 
         if installed:
             for i in path.InstallRoot:
